@@ -114,6 +114,18 @@ fn source_lines(content: &[Node]) -> Vec<String> {
                 Node::Word(w) => lines.last_mut().unwrap().push_str(w),
                 Node::Space => lines.last_mut().unwrap().push(' '),
                 Node::El(e) if e.tag == "br" => lines.push(String::new()),
+                Node::El(e) if e.tag == "pre" => {
+                    // a <pre> nested in the block is a block of its own: it starts on a
+                    // new line and what follows it does too (blank lines around it are
+                    // not compared, see check_pre)
+                    if !lines.last().unwrap().is_empty() {
+                        lines.push(String::new());
+                    }
+                    rec(&e.children, lines);
+                    if !lines.last().unwrap().is_empty() {
+                        lines.push(String::new());
+                    }
+                }
                 Node::El(e) => rec(&e.children, lines),
                 _ => {}
             }
@@ -203,6 +215,10 @@ pub fn check_pre(out: &mut CaseOut, pc: &PreCase, w: usize) -> bool {
         got_tags.push(tags);
     }
     let src = source_lines(&pc.content);
+    let nested_pre = ast::has_tag(&pc.content, "pre");
+    if nested_pre {
+        out.inc("blocks_with_nested_pre");
+    }
     let expanded: Vec<String> = src.iter().map(|l| expand(l)).collect();
     let maxw = expanded.iter().map(|l| sw_chars(l)).max().unwrap_or(0);
     if out.sample.is_none() {
@@ -214,6 +230,16 @@ pub fn check_pre(out: &mut CaseOut, pc: &PreCase, w: usize) -> bool {
         // (compared modulo line-trailing spaces: the property removes them, and
         // whether spaces produced by a trailing tab count is not its subject)
         let g = trim_trailing_empty(got.iter().map(|l| rstrip(l).to_string()).collect());
+        // around a nested <pre> the renderer separates blocks with blank lines: the lines
+        // with content are compared, in order
+        let (exp, g): (Vec<String>, Vec<String>) = if nested_pre {
+            (
+                exp.into_iter().filter(|l| !l.trim().is_empty()).collect(),
+                g.into_iter().filter(|l| !l.trim().is_empty()).collect(),
+            )
+        } else {
+            (exp, g)
+        };
         if exp != g {
             let class = if exp.len() != g.len() {
                 "line-count"
@@ -243,6 +269,11 @@ pub fn check_pre(out: &mut CaseOut, pc: &PreCase, w: usize) -> bool {
                 }
             }
         }
+        return true;
+    }
+    if nested_pre {
+        // the alignment of wrapped source lines below does not model block separation
+        out.inc("nested_pre_not_fitting_skipped");
         return true;
     }
     out.inc("class_does_not_fit");
@@ -468,6 +499,17 @@ fn gen_pre(rng: &mut Rng, avail: usize) -> Vec<Node> {
     flush(&mut cur, &mut nodes);
     if nodes.is_empty() {
         nodes.push(Node::Raw("x".into()));
+    }
+    // a <pre> nested in the block (directly or inside an inline element), followed by more
+    // preformatted text of the outer block
+    if rng.chance(1, 12) {
+        let inner_text = format!("{}  {}", tok.unique(rng, &p), tok.unique(rng, &p));
+        let inner = El::with("pre", vec![Node::Raw(inner_text)]).node();
+        let inner = if rng.chance(1, 3) { El::with("em", vec![inner]).node() } else { inner };
+        let at = rng.below(nodes.len() + 1);
+        nodes.insert(at, inner);
+        let tail = format!("{}   {}\n  {}\t{}", tok.unique(rng, &p), tok.unique(rng, &p), tok.unique(rng, &p), tok.unique(rng, &p));
+        nodes.insert(at + 1, Node::Raw(tail));
     }
     nodes
 }
